@@ -467,7 +467,11 @@ func (g *Gen) intents() []intent {
 	}
 	add(1, func() []SymStep {
 		pw := lit("Changed-" + fmt.Sprint(g.rng.Intn(3)) + "!Z")
-		return one(SymStep{Kind: "updpw", U: g.known(), PW: &pw})
+		u := g.known()
+		if g.rng.Intn(4) == 0 { // "changed" to the password it already has: still a change for the tokens
+			pw = Desc{K: "pw", U: u}
+		}
+		return one(SymStep{Kind: "updpw", U: u, PW: &pw})
 	})
 	if c.Totp {
 		add(3, func() []SymStep { // enrol: setup then confirm
@@ -861,6 +865,14 @@ func (g *Gen) scenarios() []intent {
 			if g.rng.Intn(4) == 0 { // re-issue: the first token is superseded
 				out = append(out, g.req(b, "POST", "RecoverStart", []KV{{g.pidField(), Desc{K: "pid", U: u}}}))
 			}
+			if g.rng.Intn(2) == 0 { // the mailed link opens the form page first
+				pg := g.req(b, "GET", "RecoverEnd", nil)
+				pg.Req.Query = []KV{{"token", Desc{K: "mailtok", Kind: "recover", U: u}}}
+				out = append(out, pg)
+			}
+			if g.rng.Intn(5) == 0 { // recovering to the password the account already has
+				np = Desc{K: "pw", U: u}
+			}
 			end := g.req(b, "POST", "RecoverEnd", []KV{{"token", Desc{K: "mailtok", Kind: "recover", U: u}}, {"password", np}, {"confirm_password", np}})
 			out = append(out, end)
 			if g.rng.Intn(2) == 0 { // replay of the same link
@@ -963,8 +975,11 @@ func (g *Gen) scenarios() []intent {
 				b2 := g.browser()
 				out = append(out, SymStep{Kind: "forgecookie", U: b2, PW: &Desc{K: "lit", V: u}}, SymStep{Kind: "dropsess", U: b2},
 					SymStep{Kind: "req", Req: &SymReq{Browser: b2, Method: "GET", Route: "App", Arg: "00u0010"}})
-			case 1: // password change revokes
+			case 1: // password change revokes (also when the new password equals the old one)
 				pw := lit("Changed-9!Zz")
+				if g.rng.Intn(3) == 0 {
+					pw = Desc{K: "pw", U: u}
+				}
 				out = append(out, SymStep{Kind: "updpw", U: u, PW: &pw})
 			case 2:
 				out = append(out, g.interleave()...)
